@@ -65,7 +65,7 @@ def decode(p):
                                    "decoy": "bare argv[0], cwd contains an unrelated file of the same name", "rel": "./app.bin",
                                    "dotdot": "cwd/../app.bin", "symlink": "symbolic link in another directory"}.get(f[4] if len(f) > 4 else "abs")}
         filler = {"0": "letters (no '#')", "1": "'#' every 61 bytes, newline every 127", "2": "pseudo-random (LCG seed %s)" % f[3]}[f[2]]
-        d = {"packed": f[0] == "1", "binary_size": int(f[1]), "filler": filler, "project_tree": int(f[6]), "entry_returns": int(f[7])}
+        d = {"packed": f[0] == "1", "binary_size": int(f[1]), "filler": filler, "project_tree": f[6] + (" (must be refused by the pack tool)" if f[6].endswith("r") else ""), "entry_returns": int(f[7])}
         if f[4] != "-":
             d["planted"] = [{"offset": int(x.split(":")[0]), "bytes": bytes.fromhex(x.split(":")[1]).decode("latin1")}
                             for x in f[4].split(",")]
